@@ -130,6 +130,10 @@ type vfC01Outcome struct {
 	panic  bool
 	isUnav bool // the error IS breaker.ErrServiceUnavailable (convertError may turn it into a status)
 	mk     func(id int64) error
+	// error-value shapes (zz_verif_c01_shapesites_test.go): the key a misclassification is reported
+	// under (C01/zrpc-server/misclassified/<sentinel>/<shape class>), the reference classification in
+	// words, and the shape class
+	key, ref, class string
 }
 
 var vfC01ErrSeq atomic.Int64
@@ -215,6 +219,8 @@ type vfC01Hist struct {
 	legal int64
 	must  int64
 	sig   []any
+	// relabel: when set (shape floods), the key of every illegal rejection
+	relabel string
 }
 
 const (
@@ -426,6 +432,10 @@ func (h *vfC01Hist) step(si int, gap time.Duration, out vfC01Outcome, ctxMode in
 				c.Viol("C01/identity/zrpc-server/window-shared-across-methods",
 					fmt.Sprintf("call on %s rejected although the window of that FullMethod holds accepted=%d, non-accepted=%d; only together with the calls on the other methods (accepted=%d, non-accepted=%d) would a rejection be allowed", s.label, p.A, p.N, up.A, up.N),
 					h.witness("one breaker per FullMethod"))
+			} else if h.relabel != "" {
+				c.Viol(h.relabel,
+					fmt.Sprintf("the breaker interceptor rejected a call although the window holds accepted=%d, non-accepted=%d: handler outcomes of this shape are recorded as failures", p.A, p.N),
+					h.witness(fmt.Sprintf("accepted=%d nonaccepted=%d at the rejected (last) call", p.A, p.N)))
 			} else {
 				c.Viol("C01/illegal-reject/zrpc-server/"+p.illegalKey(),
 					fmt.Sprintf("the breaker interceptor rejected a call although the window holds accepted=%d, non-accepted=%d: %d does not exceed 5 + 10%% of %d", p.A, p.N, p.N, p.A),
@@ -518,6 +528,7 @@ func vfC01Random(c *kit.Case, vc *kit.VClock) {
 	pCtx := kit.Choose(r, []float64{0, 0.3, 1})
 	pDone := kit.Choose(r, []float64{0, 0.05, 0.2})
 	pLat := kit.Choose(r, []float64{0, 0.1})
+	pShape := kit.Choose(r, []float64{0, 0.3, 0.6})
 	gapMode := r.Pick(30, 25, 25, 8, 12)
 	steady := time.Duration(r.Range(1, 120)) * time.Millisecond
 	for i := 0; i < L && !c.Violated(); i++ {
@@ -534,12 +545,19 @@ func vfC01Random(c *kit.Case, vc *kit.VClock) {
 			out = vfC01FailOuts[r.Intn(len(vfC01FailOuts)-1)]
 			if r.Chance(pPanic) {
 				out = vfC01FailOuts[len(vfC01FailOuts)-1]
+			} else if r.Chance(pShape) { // context.DeadlineExceeded / ErrServiceUnavailable / a failing status in one of the errors.Is / errors.As shapes
+				out = kit.Choose(r, vfC01ShFailOuts)
 			}
 		} else {
 			out = kit.Choose(r, vfC01OkOuts)
 			if r.Chance(0.4) {
 				out = vfC01OkOuts[0]
+			} else if r.Chance(pShape) { // negative controls, non-failing statuses in the same shapes
+				out = kit.Choose(r, vfC01ShOkOuts)
 			}
+		}
+		if out.key != "" {
+			c.Obs("zrpc_server_shape_calls_in_random_histories", 1)
 		}
 		ctxMode := vfC01CtxNone
 		if r.Chance(pCtx) {
@@ -627,5 +645,19 @@ func TestVerifC01ZS(t *testing.T) {
 	kit.Run(t, "C01", "zrpc-server", kit.N(600, 8000), func(c *kit.Case) { vfC01Random(c, vc) })
 	kit.Run(t, "C01", "zrpc-server-effect", kit.N(2*len(vfC01FailOuts), 20*len(vfC01FailOuts)), func(c *kit.Case) { vfC01Effect(c, vc) })
 	kit.Run(t, "C01", "zrpc-server-flood", kit.N(2*len(vfC01OkOuts), 20*len(vfC01OkOuts)), func(c *kit.Case) { vfC01Flood(c, vc) })
+
+	// error-value shapes of the sentinels / status codes serverSideAcceptable names (zz_verif_c01_shapes_test.go,
+	// zz_verif_c01_shapesites_test.go); index: shape x unary/stream
+	if err := vfC01ShSelfCheck(vfC01ShSens...); err != nil {
+		t.Fatalf("zrpc server sentinels: %v", err)
+	}
+	if err := vfC01StSelfCheck(); err != nil {
+		t.Fatalf("zrpc server status shapes: %v", err)
+	}
+	if vfC01ShDialTimeout == nil {
+		kit.Obs("real_net_errors_unavailable", 1)
+	}
+	kit.Run(t, "C01", "zrpc-server-shape-effect", kit.N(2*len(vfC01ShFailOuts), 20*len(vfC01ShFailOuts)), func(c *kit.Case) { vfC01ShapeEffect(c, vc) })
+	kit.Run(t, "C01", "zrpc-server-shape-flood", kit.N(2*len(vfC01ShOkOuts), 20*len(vfC01ShOkOuts)), func(c *kit.Case) { vfC01ShapeFlood(c, vc) })
 	kit.End()
 }
